@@ -32,45 +32,97 @@ pub fn kidx(k: KeyCode) -> usize {
     k as u8 as usize
 }
 
-/// Key universe: named keys plus anything else a decoder emitted (filled by `universe()`).
-pub fn universe() -> Vec<KeyCode> {
+/// Sequences (set, bytes) whose decoded key is not one of the named keys.  Runs the real decoders over every
+/// prefix × byte, so it is executed in a *child process* (`monitor --list-extra-keys`): if the tree under test
+/// aborts on some garbage byte, only the child dies and the universe falls back to the named keys.
+pub fn list_extra_key_sequences() -> Vec<(u8, Vec<u8>)> {
     use pc_keyboard::{ScancodeSet, ScancodeSet1, ScancodeSet2};
-    let mut v: Vec<KeyCode> = NAMED_KEYS.to_vec();
-    let mut add = |r: Result<Option<KeyEvent>, Error>| {
-        if let Ok(Some(ev)) = r {
-            if !v.contains(&ev.code) {
-                v.push(ev.code);
-            }
-        }
-    };
+    let mut out: Vec<(u8, Vec<u8>)> = Vec::new();
     let prefixes: [&[u8]; 6] = [&[], &[0xE0], &[0xE1], &[0xF0], &[0xE0, 0xF0], &[0xE1, 0xF0]];
     for p in prefixes.iter() {
         for b in 0..=255u8 {
+            let mut seq = p.to_vec();
+            seq.push(b);
             let r = std::panic::catch_unwind(|| {
                 let mut d = ScancodeSet2::new();
-                for x in p.iter() {
-                    let _ = d.advance_state(*x);
+                let mut last = Ok(None);
+                for x in seq.iter() {
+                    last = d.advance_state(*x);
                 }
-                d.advance_state(b)
+                last
             });
-            if let Ok(r) = r {
-                add(r);
+            if let Ok(Ok(Some(ev))) = r {
+                if !NAMED_KEYS.contains(&ev.code) {
+                    out.push((2, seq.clone()));
+                }
             }
             if p.len() <= 1 && (p.is_empty() || p[0] != 0xF0) {
                 let r = std::panic::catch_unwind(|| {
                     let mut d = ScancodeSet1::new();
-                    for x in p.iter() {
-                        let _ = d.advance_state(*x);
+                    let mut last = Ok(None);
+                    for x in seq.iter() {
+                        last = d.advance_state(*x);
                     }
-                    d.advance_state(b)
+                    last
                 });
-                if let Ok(r) = r {
-                    add(r);
+                if let Ok(Ok(Some(ev))) = r {
+                    if !NAMED_KEYS.contains(&ev.code) {
+                        out.push((1, seq.clone()));
+                    }
                 }
             }
         }
     }
-    v
+    out
+}
+
+static UNIVERSE: std::sync::OnceLock<Vec<KeyCode>> = std::sync::OnceLock::new();
+
+/// Key universe: named keys plus anything else a decoder emitted.
+pub fn universe() -> Vec<KeyCode> {
+    UNIVERSE
+        .get_or_init(|| {
+            use pc_keyboard::{ScancodeSet, ScancodeSet1, ScancodeSet2};
+            let mut v: Vec<KeyCode> = NAMED_KEYS.to_vec();
+            let exe = match std::env::current_exe() {
+                Ok(e) => e,
+                Err(_) => return v,
+            };
+            let out = match std::process::Command::new(exe).arg("--list-extra-keys").output() {
+                Ok(o) if o.status.success() => String::from_utf8_lossy(&o.stdout).to_string(),
+                _ => return v, // the child died or is not the monitor binary: named keys only
+            };
+            for line in out.lines() {
+                let mut it = line.split_whitespace();
+                let (Some(set), Some(hex)) = (it.next(), it.next()) else { continue };
+                let bytes: Vec<u8> = (0..hex.len() / 2).filter_map(|i| u8::from_str_radix(&hex[2 * i..2 * i + 2], 16).ok()).collect();
+                // the child decoded this sequence without crashing, so it is safe to decode it here to obtain the value
+                let r = std::panic::catch_unwind(|| {
+                    if set == "1" {
+                        let mut d = ScancodeSet1::new();
+                        let mut last = Ok(None);
+                        for x in bytes.iter() {
+                            last = d.advance_state(*x);
+                        }
+                        last
+                    } else {
+                        let mut d = ScancodeSet2::new();
+                        let mut last = Ok(None);
+                        for x in bytes.iter() {
+                            last = d.advance_state(*x);
+                        }
+                        last
+                    }
+                });
+                if let Ok(Ok(Some(ev))) = r {
+                    if !v.contains(&ev.code) {
+                        v.push(ev.code);
+                    }
+                }
+            }
+            v
+        })
+        .clone()
 }
 
 pub fn key_by_name(name: &str) -> Option<KeyCode> {
